@@ -4,7 +4,7 @@ eng="$1"; shift
 out=/verif/.build/cases/dev-$eng
 rm -rf "$out"
 /verif/.build/target/release/feox-verif-harness "$eng" out="$out" "$@" 2>&1 | tail -2
-for c in "$out"/cases.*.txt; do m=$(echo "$c" | sed 's/cases\./model./'); /verif/.build/runner/modelrun < "$c" > "$m" & done; wait
+for c in "$out"/cases.*.txt; do m=$(echo "$c" | sed 's/cases\./model./'); (ulimit -s unlimited; /verif/.build/runner/modelrun < "$c" > "$m") & done; wait
 bad=0
 for c in "$out"/cases.*.txt; do m=$(echo "$c" | sed 's/cases\./model./'); i=$(echo "$c" | sed 's/cases\./impl./'); cmp -s "$m" "$i" || { bad=1; diff <(cut -c1-300 "$m") <(cut -c1-300 "$i") | head -8; }; done
 cat "$out"/oracle.*.txt | head -5
